@@ -10,7 +10,10 @@ function variants — Lang/TypesFun.lean's call model (Props/C02Fun.lean: call_p
 definitions of a helper (result type, parameter types, declared locals) and the results CPython / the firmware print for every call.
 Oracle E: values printed by the compiled firmware vs CPython for block-structured scripts mixing bool/int/float/str in every
 order (top level, branches, loops), classified by the model's TypeStable verdict; a dedicated stream of builtin calls (tame shapes must
-agree; a float operand to abs/min/max must come out as K02e `types:builtin-float-result` and nothing else)."""
+agree; a float operand to abs/min/max must come out as K02e `types:builtin-float-result` and nothing else); helper functions whose
+locals are hoisted out of if/else, if/elif/else, for and while bodies — the same local name hoisted several times with different types
+(two typed variants of one helper, several helpers), narrower type first and wider first, with and without a hoisting top-level if before
+the defs (`function_hoists`; a loop hoist after an if hoist of the same name is K02f)."""
 from __future__ import annotations
 
 import itertools
@@ -126,6 +129,13 @@ def gen_programs(ctx):
                         st = ("for", f"k{j}", 1, [st])
                     body.append(st)
                 progs.append(({"pre": body + [("wr", "z")], "main": None}, "retype-orders:" + place, place == "top"))
+    # every hazard at least twice at every seed (the random stream above draws a hazard for 40% of 120 programs out of 20 kinds: a kind can be absent
+    # from a quick run); its own generator, so that the streams above stay what they were
+    import random
+    hrng = random.Random(f"{getattr(ctx, 'seed', 0)}:C02:every-hazard")
+    for hz in tygen.HAZARDS:
+        for straight in (False, True):
+            progs.append((tygen.TyGen(hrng, hazard=hz, straight=straight).program(), hz, straight))
     return progs
 
 
@@ -185,14 +195,66 @@ def functions(ctx):
             ctx.fail("types:function-" + ("parameter-rebound" if rebinding else "result"), f"firmware prints {bad[1]!r} where Python prints {bad[0]!r}", replay)
 
 
+def hoist_script(head, top, fns, kinds):
+    """one script of `function_hoists`: fns = [(local name, arm kind, hoisting construct)], kinds = call-site argument types in order"""
+    lines = ["mode = 3"]
+    if top:
+        lines += ["if mode > 1:", "    gain = 1.5", "else:", "    gain = 2.5", "mon.write(gain)"]
+    calls = ["wi = 3", "wf = 1.5", "wn = -0.75"]
+    for j, fn in enumerate(fns):
+        loc, arm = fn[0], fn[1]
+        form = fn[2] if len(fn) > 2 else "if"
+        x, y = HOIST_ARMS[arm]
+        y = "4" if y == "a_int" else y
+        if form == "if":
+            lines += [f"def f{j}(a):", "    if a > 0:", f"        {loc} = {x}", "    else:", f"        {loc} = {y}", f"    return {loc}"]
+        elif form == "elif":
+            lines += [f"def f{j}(a):", "    if a > 2:", f"        {loc} = {x}", "    elif a > 0:", f"        {loc} = {y}", "    else:", f"        {loc} = {x}", f"    return {loc}"]
+        elif form == "for":
+            lines += [f"def f{j}(a):", "    for i in range(2):", f"        {loc} = {x}", f"    return {loc}"]
+        else:
+            lines += [f"def f{j}(a):", "    n = 0", "    while n < 2:", f"        {loc} = {x}", "        n += 1", f"    return {loc}"]
+        for kd in kinds:
+            for arg in (["wi", "0"] if kd == "int" else ["wf", "wn"]):
+                nm = f"r{j}_{len(calls)}"
+                calls += [f"{nm} = f{j}({arg})", f"mon.write({nm})"]
+    return head + "\n".join(lines + calls) + "\n"
+
+
+HOIST_ARMS = {"int": ("7", "a_int"), "float": ("2.5", "0.25"), "str": ('"pos"', '"neg"'), "param": ("a * 2", "a"), "parf": ("a * 0.5", "1.5")}
+# the same local name hoisted more than once, narrower type first: by the int primary variant and then a float variant of ONE helper (`param` arms take
+# the parameter's type), by two helpers (int then float, int then str-free float-by-parameter), with and without a hoisting top-level if before the defs,
+# and through every hoisting construct (if/else, if/elif/else, for, while)
+HOIST_PINNED_2 = [
+    (True, [("t", "param", "if")], ["int", "float"]), (False, [("t", "param", "if")], ["int", "float"]), (True, [("t", "param", "elif")], ["int", "float"]),
+    (True, [("t", "int", "if"), ("t", "float", "if")], ["int"]), (True, [("t", "int", "if"), ("t", "parf", "if")], ["float"]),
+    (True, [("t", "int", "if"), ("t", "param", "if")], ["float"]), (True, [("q", "int", "elif"), ("q", "float", "elif")], ["int", "float"]),
+    (True, [("t", "int", "if"), ("u", "float", "if"), ("t", "parf", "if"), ("u", "int", "if")], ["int"]),
+    (True, [("t", "param", "for")], ["int", "float"]), (True, [("t", "param", "while")], ["int", "float"]),
+    (True, [("t", "int", "for"), ("t", "float", "for")], ["int"]), (True, [("t", "int", "while"), ("t", "parf", "while")], ["int"]),
+    (True, [("t", "float", "for"), ("t", "int", "if")], ["int"]), (False, [("t", "int", "if"), ("t", "float", "for")], ["int"]),
+    # an if-hoisted local and a LOOP-hoisted local of the same name in another helper (K02f)
+    (True, [("t", "int", "if"), ("t", "parf", "for")], ["int"]), (True, [("t", "int", "if"), ("t", "float", "while")], ["int"]),
+    (True, [("t", "param", "for"), ("t", "int", "if")], ["int", "float"]),
+]
+
+
+def loop_after_if(top, fns):
+    """K02f's shape: the script hoists a top-level name out of an if before the defs, and a local hoisted out of a for/while in one helper is spelled like a
+    local hoisted out of an if in another helper"""
+    return top and any((f[2] if len(f) > 2 else "if") in ("for", "while") and any(g[0] == f[0] and (g[2] if len(g) > 2 else "if") in ("if", "elif") for g in fns if g is not f) for f in fns)
+
+
 def function_hoists(ctx):
-    """locals first assigned in both arms of an if inside helper functions: the hoisted declaration takes the type the local has in THAT body
-    (per function and per call-signature specialisation), whatever other scopes hoisted a name spelled the same before
-    (a local spelled like a module-level name is C01's K01j and is not generated here)"""
+    """locals first assigned in both arms of an if (all arms of an if/elif/else, the body of a for / while) inside helper functions: the hoisted
+    declaration takes the type the local has in THAT body (per function and per call-signature specialisation), whatever other scopes hoisted a
+    name spelled the same before (a local spelled like a module-level name is C01's K01j and is not generated here)"""
+    import random
     rng = ctx.rng
     head = "from Reduino.Communication import SerialMonitor\nmon = SerialMonitor(9600)\n"
-    ARMS = {"int": ("7", "a_int"), "float": ("2.5", "0.25"), "str": ('"pos"', '"neg"'), "param": ("a * 2", "a"), "parf": ("a * 0.5", "1.5")}
+    ARMS = HOIST_ARMS
     cases = []
+    shape = []                                          # per case: K02f's shape?
     pinned = [(True, [("t", "param"), ("t", "str")], ["int", "float"]), (True, [("t", "float"), ("t", "int")], ["int"]), (False, [("t", "param"), ("t", "str")], ["int", "float"]),
               (True, [("t", "str"), ("t", "param")], ["float", "int"]), (True, [("q", "int"), ("t", "parf"), ("t", "int")], ["int"])]
     for k in range(ctx.n(40, 300) + len(pinned)):
@@ -202,19 +264,21 @@ def function_hoists(ctx):
             top = rng.random() < 0.7
             fns = [(rng.choice(["t", "t", "q"]), rng.choice(list(ARMS))) for _ in range(rng.randint(1, 3))]
             kinds = rng.choice([["int"], ["float"], ["int", "float"], ["float", "int"]])
-        lines = ["mode = 3"]
-        if top:
-            lines += ["if mode > 1:", "    gain = 1.5", "else:", "    gain = 2.5", "mon.write(gain)"]
-        calls = ["wi = 3", "wf = 1.5", "wn = -0.75"]
-        for j, (loc, arm) in enumerate(fns):
-            x, y = ARMS[arm]
-            y = "4" if y == "a_int" else y
-            lines += [f"def f{j}(a):", "    if a > 0:", f"        {loc} = {x}", "    else:", f"        {loc} = {y}", f"    return {loc}"]
-            for kd in kinds:
-                for arg in (["wi", "0"] if kd == "int" else ["wf", "wn"]):
-                    nm = f"r{j}_{len(calls)}"
-                    calls += [f"{nm} = f{j}({arg})", f"mon.write({nm})"]
-        cases.append(head + "\n".join(lines + calls) + "\n")
+        cases.append(hoist_script(head, top, fns, kinds))
+        shape.append(False)
+    # second stream (its own generator: the draws above stay what they were): numeric locals only — a str local sharing a numeric local's name does not
+    # compile under any confusion and would hide the silent narrowing —, every hoisting construct, mostly a top-level hoist first, names re-used a lot
+    frng = random.Random(f"{ctx.seed}:C02:hoist-forms")
+    for k in range(ctx.n(50, 400) + len(HOIST_PINNED_2)):
+        if k < len(HOIST_PINNED_2):
+            top, fns, kinds = HOIST_PINNED_2[k]
+        else:
+            top = frng.random() < 0.85
+            forms = frng.choice([["if"], ["if"], ["if", "elif"], ["if", "elif", "for", "while"], ["for", "while"]])
+            fns = [(frng.choice(["t", "t", "q"]), frng.choice(["int", "float", "param", "param", "parf"]), frng.choice(forms)) for _ in range(frng.randint(1, 4))]
+            kinds = frng.choice([["int"], ["float"], ["int", "float"], ["int", "float"], ["float", "int"]])
+        cases.append(hoist_script(head, top, fns, kinds))
+        shape.append(loop_after_if(top, fns))
     # recursive helpers whose recursive call permutes differently typed arguments: every typed variant reachable from the call sites is needed
     for body, calls in [
         ("def mix(x, y, d):\n    if d > 0:\n        return mix(y, x, d - 1)\n    return x + y\n", ["mix(1, h, 3)", "mix(1, h, 2)", "mix(h, 1, 1)", "mix(2, 3, 1)"]),
@@ -234,9 +298,10 @@ def function_hoists(ctx):
                 for j, c in enumerate(sel):
                     lines += [f"r{j} = {c}", f"mon.write(r{j})"]
                 cases.append(head + "\n".join(lines) + "\n")
+                shape.append(False)
     outs = [cxx.transpile(s) for s in cases]
     it = iter(cxx.run_many(ctx, [(cpp, 0, "") for cpp, e in outs if cpp is not None]))
-    for src, (cpp, exc) in zip(cases, outs):
+    for src, (cpp, exc), k02f in zip(cases, outs, shape):
         replay = {"script": src}
         if cpp is None:
             ctx.count("function-hoist:rejected")
@@ -251,7 +316,7 @@ def function_hoists(ctx):
             ctx.tie_diff("generator invariant (scripts run under CPython)", replay, repr(err), "")
             continue
         ctx.cov["traces_validated_against_impl"] += 1
-        ctx.count("function-hoist:compared")
+        ctx.count("function-hoist:compared" + (":loop-hoist-after-if-hoist-of-the-same-name" if k02f else ""))
         py = [t for t in writes(ev)]
         fw = [t for t in writes(pyoracle.fw_events(res.trace))]
         def eq(a, b):
@@ -261,7 +326,8 @@ def function_hoists(ctx):
                 return a == b
         if len(py) != len(fw) or not all(eq(a, b) for a, b in zip(py, fw)):
             bad = next(((a, b) for a, b in zip(py, fw) if not eq(a, b)), (len(py), len(fw)))
-            ctx.fail("types:function-recursive-variant" if "d - 1" in src else "types:function-hoisted-local", f"firmware prints {bad[1]!r} where Python prints {bad[0]!r}", replay)
+            key = "types:function-recursive-variant" if "d - 1" in src else "types:function-loop-hoisted-local-after-if-hoist" if k02f else "types:function-hoisted-local"
+            ctx.fail(key, f"firmware prints {bad[1]!r} where Python prints {bad[0]!r}", replay)
 
 
 # ---- W8: helper functions in the type-assignment model (Lang/TypesFun.lean, Props/C02Fun.lean) -------------------------------------------
@@ -557,8 +623,9 @@ def run(ctx: Ctx) -> int:
             ctx.tie_diff("tie mergeReturn (model vs emitted return type)", {"script": src}, m, real)
     ctx.cov["rule"] = ("random block-structured scripts over bool/int/float/str names with builtin calls abs/min/max/int/float/bool among the expressions "
                        "(40% with one injected re-typing hazard, 35% straight-line), a stream where half of the compound expressions are builtin calls "
-                       "(every third program with a float operand to abs/min/max), plus every order of 2-3 "
-                       "differently-typed assignments to one name at top level / in a branch / in a loop, plus every return-type combination up to 3 returns, "
-                       "plus helpers in structured form (1-3 typed parameters, locals, 1-3 returns of mixed types, parameters kept or re-bound wider) called with int/float/bool variables; "
-                       "each compiled and run for one pass against CPython")
+                       "(every third program with a float operand to abs/min/max), plus two programs per hazard kind, plus every order of 2-3 "
+                       "differently-typed assignments to one name at top level / in a branch / in a loop, plus every return-type combination up to 3 returns; "
+                       "each compiled and run for one pass against CPython; helper functions: parameter re-binding / return joins (`functions`), locals hoisted out of "
+                       "if/else, if/elif/else, for, while in 1-4 helpers that re-use two local names with int / float / parameter-typed values, called with int and "
+                       "float variables in both orders (pinned narrower-first / wider-first orders + two random streams), recursive typed variants, plus helpers in structured form (1-3 typed parameters, locals, 1-3 returns of mixed types, parameters kept or re-bound wider) called with int/float/bool variables (function-variants tie, W8)")
     return ctx.finish(TRUSTED, search=None)
